@@ -1,0 +1,42 @@
+//go:build verif
+
+// Contracts for the govc verifier (see /verif/DESIGN.md). Comment-only file: with the
+// "verif" build tag off it is not compiled; with it on it contains only the package clause.
+
+package estargz
+
+// Assumed contracts of the content store and io (dependencies): the writer's Digest() is a function of the writer
+// (the digest of what was written to it), io.Copy returns the number of bytes it wrote.
+//@ uf wdigest(content.Writer) string
+//@ uf islayer(string) bool
+//@ ghost lastCopy int
+//@ func interface github.com/containerd/containerd/v2/core/content.Writer.Digest
+//@   ensures result == wdigest(self)
+//@ uf dgstOf(digest.Digester) string
+//@ func interface github.com/opencontainers/go-digest.Digester.Digest
+//@   ensures result == dgstOf(self)
+//@ func io.Copy
+//@   trusted
+//@   modifies lastCopy
+//@   ensures err == nil ==> written == lastCopy
+//@ func github.com/containerd/containerd/v2/core/images.IsLayerType
+//@   trusted
+//@   ensures result == islayer(mt)
+//@ func github.com/containerd/containerd/v2/core/content.OpenWriter
+//@   trusted
+//@   ensures err == nil ==> result0 != nil
+
+// estargz.Build (separate module, not verified here): a successful build yields a blob with its digesters set.
+//@ func estargz.Build
+//@   trusted
+//@   ensures err == nil ==> result0 != nil && result0.diffID != nil && result0.ReadCloser != nil
+
+// The returned descriptor describes exactly the blob that was written and committed.
+//@ func LayerConvertFunc$1
+//@   props C19
+//@   requires cs != nil
+//@   ensures[C19] !islayer(desc.MediaType) ==> result0 == nil && err == nil
+//@   ensures[C19] err == nil && result0 != nil ==> result0.Size == lastCopy && result0.Digest == wdigest(w)
+//@   ensures[C19] err == nil && result0 != nil ==> estargz.TOCJSONDigestAnnotation in result0.Annotations && result0.Annotations[estargz.TOCJSONDigestAnnotation] == blob.TOCDigest().String()
+//@   ensures[C19] err == nil && result0 != nil ==> result0.Annotations[estargz.StoreUncompressedSizeAnnotation] == sprintf("%d", uncompressedSize)
+//@   assert[C19] before "if err = w.Commit(ctx, n" : n == lastCopy && labelz[labels.LabelUncompressed] == blob.DiffID().String()
